@@ -190,6 +190,9 @@ type pdfLine struct {
 	font int // 0 or 1: /F1 (WinAnsi), 2: /F2 (MacRoman), 3: /F3 (Differences)
 }
 
+// pdfLinesFontExtra: further entries of the /F1 font dictionary written by mkPDFLines
+var pdfLinesFontExtra = ""
+
 // mkPDFLines: one content stream per page with absolutely positioned lines (Tm)
 func mkPDFLines(pages [][]pdfLine, width, height int) []byte {
 	var b bytes.Buffer
@@ -208,7 +211,7 @@ func mkPDFLines(pages [][]pdfLine, width, height int) []byte {
 		kids = append(kids, fmt.Sprintf("%d 0 R", 4+2*i))
 	}
 	obj(2, fmt.Sprintf("<< /Type /Pages /Kids [%s] /Count %d >>", strings.Join(kids, " "), len(pages)))
-	obj(3, "<< /Type /Font /Subtype /Type1 /BaseFont /Helvetica /Encoding /WinAnsiEncoding >>")
+	obj(3, "<< /Type /Font /Subtype /Type1 /BaseFont /Helvetica /Encoding /WinAnsiEncoding"+pdfLinesFontExtra+" >>")
 	esc := strings.NewReplacer("\\", "\\\\", "(", "\\(", ")", "\\)")
 	fontRes := "/F1 3 0 R"
 	multi := false
